@@ -162,6 +162,8 @@ pub enum Script {
     A,
     B,
     C,
+    /// two timers armed with the same fixed duration whose handlers cancel / re-arm each other
+    D,
     Ping,
     Pong,
 }
@@ -193,6 +195,13 @@ fn cmds(script: Script, kind: &Kind) -> Vec<UCmd> {
         (Script::C, Kind::Msg { msg: 2, .. }) => vec![Set(0, 4, true), Cancel(0), Set(0, 6, true)],
         (Script::C, Kind::Msg { msg: 3, .. }) => vec![Cancel(0)],
         (Script::C, Kind::Timeout(_)) => vec![Send(2, 7)],
+        (Script::D, Kind::Start) => vec![Set(0, 5, false), Set(1, 5, false)],
+        (Script::D, Kind::Timeout(0)) => vec![Cancel(1), Send(1, 10)],
+        (Script::D, Kind::Timeout(1)) => vec![Set(0, 5, false), Send(1, 11)],
+        (Script::D, Kind::Msg { msg: 1, .. }) => vec![Set(1, 5, false), Set(0, 5, false)],
+        (Script::D, Kind::Msg { msg: 2, .. }) => vec![Set(0, 5, false), Set(1, 5, false), Set(2, 5, false)],
+        (Script::D, Kind::Timeout(2)) => vec![Cancel(0), Cancel(1)],
+        (Script::D, Kind::Msg { msg: 3, .. }) => vec![Cancel(0)],
         (Script::Ping, Kind::Start) => vec![Send(1, 1), Set(0, 5, true)],
         (Script::Ping, Kind::Msg { msg, .. }) if *msg < 4 => vec![Send(1, *msg + 1)],
         (Script::Ping, Kind::Timeout(0)) => vec![Send(1, 1)],
@@ -556,10 +565,10 @@ pub fn run_c17(a: &Args, shared: &SharedReport) {
     {
         let mut r = shared.lock().unwrap();
         r.rule = "every sequence of environment answers (datagram from the peer / from an unknown address / undecodable / non-IPv4 / read time-out / spurious WouldBlock / Interrupted) to the full depth, and beyond it every sequence with a bounded number of deviations from the default answer, for each probe script; each sequence is one execution of the real spawn() event loop over the virtual socket and clock; plus the Id <-> address sweep; non-trivial = all".into();
-        r.bounds = json!({"all_sequences_to_depth": if th {"5 (two-actor system: 4)"} else {"3"}, "deviation_bounded_horizon": if th {10} else {8}, "max_deviations": if th {3} else {2}, "scripts": ["A","B","C","ping-pong (two actors, real send_to between them)"],
+        r.bounds = json!({"all_sequences_to_depth": if th {"5 (two-actor system: 4)"} else {"3"}, "deviation_bounded_horizon": if th {10} else {8}, "max_deviations": if th {3} else {2}, "scripts": ["A","B","C","D (simultaneously due timers that cancel / re-arm each other)","ping-pong (two actors, real send_to between them)"],
             "id_sweep": if th {"all 2^32 addresses x 4 ports, all 2^16 ports x 16 addresses, per-byte sweep"} else {"2^24 addresses (stride) x 4 ports, all 2^16 ports x 16 addresses, per-byte sweep"}});
     }
-    let systems: Vec<(&str, Vec<Script>)> = vec![("script-A", vec![Script::A]), ("script-B", vec![Script::B]), ("script-C", vec![Script::C]), ("ping-pong", vec![Script::Ping, Script::Pong])];
+    let systems: Vec<(&str, Vec<Script>)> = vec![("script-A", vec![Script::A]), ("script-B", vec![Script::B]), ("script-C", vec![Script::C]), ("script-D", vec![Script::D]), ("ping-pong", vec![Script::Ping, Script::Pong])];
     for (name, scripts) in &systems {
         let full = if scripts.len() == 2 { if th { 4 } else { 3 } } else if th { 5 } else { 3 };
         // (1) every answer sequence to the full depth
